@@ -490,3 +490,31 @@ func indexString(fr *frame, s, sub value) value {
 	}
 	return -1
 }
+
+// opaqueFormat: with vFormatOpaque(true), decimal formatting of a symbolic
+// number yields a placeholder instead of forking on the digit count.
+func opaqueFormat(fn *ssa.Function, args []value) (value, bool) {
+	switch fn.Name() {
+	case "Itoa", "FormatInt", "FormatUint":
+		if isSym(args[0]) {
+			return "<sym-int>", true
+		}
+	case "AppendInt", "AppendUint":
+		if isSym(args[1]) {
+			return append(args[0].([]value), strBytes("<sym-int>")...), true
+		}
+	case "FormatFloat":
+		if isSym(args[0]) {
+			return "<sym-float>", true
+		}
+	case "AppendFloat":
+		if isSym(args[1]) {
+			return append(args[0].([]value), strBytes("<sym-float>")...), true
+		}
+	case "QuoteRune", "QuoteRuneToASCII":
+		if isSym(args[0]) {
+			return "'<sym-rune>'", true
+		}
+	}
+	return nil, false
+}
